@@ -147,7 +147,10 @@ def task_yaml(t, root):
         raise ValueError(m)
     if t["name"] is not None:
         L.append("  name: " + q(tpl_j(t["name"])))
-    if t["when"] is not None:
+    if t.get("when_raw") is not None:
+        # a YAML literal that is not a string (a number, a list): the model gets the equivalent condition in t["when"]
+        L.append("  when: " + t["when_raw"])
+    elif t["when"] is not None:
         L.append("  when: " + q(expr_j(t["when"])))
     if t["loop"] is not None:
         L.append("  loop:")
